@@ -231,7 +231,7 @@ func Run(ctx *Ctx, p *Property, level string) int {
 	}
 	// a listed open finding whose obligation no longer fails is reported (informational)
 	for n, f := range open {
-		if !hitFinding[n] {
+		if !hitFinding[n] && f.Property == p.ID {
 			fmt.Printf("NOTE: known finding %q (%s) did not fail on this tree\n", n, f.What)
 		}
 	}
